@@ -18,6 +18,7 @@ def check(tree, rep, tier='quick', seed=0):
                        'NOT decided here: that the dependency trackers never lose a registered waiter (algorithmic; see C06), hence the full "no demanded line left without a value" clause']
     core = get_core(tree)
     R.k0_solve_shape(core, rep)          # every requested form is known before the first line is attempted
+    R.k12_schedule_once(core, rep)       # a demanded line is queued and stays queued until it is attempted
     rep.extra['solver_roles'] = core.solver.describe()
     R.k1_success_condition(core, rep)
     R.k1b_cli_reports(core, rep)
